@@ -67,7 +67,7 @@ func addImageExtractCases(c *Corr, rep *Report, src string, pageURL *nurl.URL, r
 		var tbl []string
 		for _, e := range els {
 			a := distiller.VerifElementAtoms(e)
-			fmt.Fprintf(&sb, " %d %s %s 0 0 0 0 0", ids[e], hx(a.StyleDisplay), b01(a.VisHidden))
+			fmt.Fprintf(&sb, " %d %s %s 0 0 0 0 0 %s", ids[e], hx(a.StyleDisplay), b01(a.VisHidden), b01(distiller.VerifIsForeignRawText(e)))
 			for _, at := range e.Attr {
 				if !seen[at.Val] {
 					seen[at.Val] = true
